@@ -431,6 +431,7 @@ Lemma agree_implies_prop i o :
   agree_C34 i o = true -> prop_C34 i o = true.
 Proof.
   unfold agree_C34, prop_C34. intros Hwf H.
+  destruct (dec_live i); [exact H|].
   destruct (dec_sops i) as [ops|]; [|discriminate]. destruct (dec_steps o) as [obs|]; [|discriminate].
   apply allowed_traces_meet_spec; auto.
 Qed.
